@@ -352,6 +352,7 @@ def split_op(op):
 
 def run_wsgi_history(case, ctype, chunks, raw=b""):
     env = gw.make_environ(gw.areq(method=case.get("method", "POST"), headers=envelope(case, ctype, raw), body=chunks))
+    _input = env["wsgi.input"]
     if case.get("clen") == "chunked":
         env["wsgi.input_terminated"] = True  # what de-chunking servers set
     req = W.Request(env)
@@ -382,7 +383,7 @@ def run_wsgi_history(case, ctype, chunks, raw=b""):
                 out.append(("ok", None))
         except Exception as exc:  # noqa: BLE001
             out.append(classify_exc(exc))
-    return out, env["wsgi.input"]
+    return out, _input  # the server's own stream object (an application may have put something else into the environ)
 
 
 def run_asgi_history(case, ctype, chunks, disconnect_at, raw=b""):
